@@ -241,22 +241,44 @@ func whole(w *world, fileRank int, want []byte) gate.Event {
 		ev["res"] = "ok"
 		ev["size"] = len(got)
 	}
-	// the fast path
+	// the fast path, from offset 0 and from offsets inside / at the edges of every zip part
 	if wf, ok := w.sys.Sto.(blobserver.WholeRefFetcher); ok && ev["res"] == "ok" {
 		h := blob.NewHash()
 		h.Write(want)
-		rc, sz, err := wf.OpenWholeRef(blob.RefFromHash(h), 0)
-		if err == nil {
+		wref := blob.RefFromHash(h)
+		n := len(want)
+		offs := []int{0, 1, n / 7, n / 3, n / 2, n/2 + 1, 2 * n / 3, n - 70000, n - 1, n}
+		for z := 1; z < 6; z++ { // around multiples of typical forced zip sizes
+			for _, d := range []int{-1, 0, 1, 4097} {
+				offs = append(offs, z*(400<<10)+d, z*(450<<10)+d, z*(500<<10)+d)
+			}
+		}
+		tried := 0
+		for _, off := range offs {
+			if off < 0 || off > n {
+				continue
+			}
+			rc, sz, err := wf.OpenWholeRef(wref, int64(off))
+			if err != nil {
+				if off == 0 {
+					ev["wholeref"] = false // not packed (yet): the fast path is legitimately unavailable
+					break
+				}
+				ev["res"] = "wrongbytes"
+				ev["detail"] = fmt.Sprintf("OpenWholeRef(offset %d): %v", off, err)
+				break
+			}
 			got, rerr := io.ReadAll(rc)
 			rc.Close()
-			if rerr != nil || sz != int64(len(want)) || !bytes.Equal(got, want) {
+			tried++
+			if rerr != nil || sz != int64(n) || !bytes.Equal(got, want[off:]) {
 				ev["res"] = "wrongbytes"
-				ev["detail"] = "OpenWholeRef returned different bytes"
+				ev["detail"] = fmt.Sprintf("OpenWholeRef(offset %d) returned %d bytes (err %v), want %d", off, len(got), rerr, n-off)
+				break
 			}
 			ev["wholeref"] = true
-		} else {
-			ev["wholeref"] = false
 		}
+		ev["wholeref_offsets"] = tried
 	}
 	return ev
 }
